@@ -36,7 +36,9 @@ DMonClauses(m, ev) ==
             <<"C19-rotation-equals-the-advertised-node-list",
                   (~m.err /\ ev.outcome = "ok") => (SeqSet(ev.rot) = Names(m.vpc, m.adv) /\ Len(ev.rot) = Cardinality(SeqSet(ev.rot)))>>,
             <<"C19-connections-to-replaced-nodes-are-closed",
-                  (~m.err /\ ev.outcome = "ok") => SeqSet(ev.open) \subseteq Names(m.vpc, m.adv)>> >>
+                  (~m.err /\ ev.outcome = "ok") => SeqSet(ev.open) \subseteq Names(m.vpc, m.adv)>>,
+            <<"C19-no-node-is-left-with-two-open-connections",
+                  (~m.err /\ ev.outcome = "ok") => Len(ev.open) = Cardinality(SeqSet(ev.open))>> >>
     [] ev.e = "route" ->
          << <<"C19-every-key-is-routed-to-a-node", (m.valid /\ ~(m.cur \subseteq m.faulted)) => ev.outcome = "ok">>,
             <<"C19-no-key-goes-to-a-node-that-is-not-advertised", (m.valid /\ ev.outcome = "ok") => ev.node \in m.cur>> >>
